@@ -1,6 +1,6 @@
 (* C06/Check.v — boolean comparators used by the correspondence check: the model's (C06.Ref)
    output against the implementation's observed output, exact integers. *)
-From Precond Require Import Base.PyLib C06.Records C06.Ref.
+From Precond Require Import Base.PyLib Base.Tensor C06.Records C06.Ref C06.BlockProofs.
 Open Scope Z_scope.
 
 Fixpoint lleqb (a b : list (list Z)) : bool :=
@@ -52,3 +52,12 @@ Definition chk_reshaper (shape : list Z) (b m : Z) (orig merged padded : list Z)
   let s := derive_shapes m b shape in
   list_eqb_z (sh_original_shape s) orig && list_eqb_z (sh_merged_shape s) merged &&
   list_eqb_z (sh_padded_shape s) padded.
+
+(* tensor-level model against the implementation: the blocks' contents of an arange tensor *)
+Definition chk_blocks (shape : list Z) (b : Z) (blocks : list (list Z)) : bool :=
+  let ss := nat_split_sizes shape b in
+  let n := prod_z shape in
+  let t := mkT (map Z.to_nat shape) (zrange n) in
+  let parts := partition ss t in
+  lleqb (map (@t_data Z) parts) blocks &&
+  list_eqb_z (t_data (merge_partitions ss parts)) (zrange n).
